@@ -60,19 +60,35 @@ def apply(lst, conv, e):
 
 
 def observe(lst, conv, name, vals, rng=None):
-    content = [name(x) for x in lst]
+    try:
+        content = [name(x) for x in lst]
+    except Exception:  # pylint: disable=broad-except
+        content = ['?']
     pos = []
     for v in vals:
         o = conv(v)
+        # a look-up that raises anything but the documented exception shows as -99 (the model never produces it)
         try:
             at = sorted(int(i) for i in lst.indices(o))
         except KeyError:
             at = []
+        except Exception:  # pylint: disable=broad-except
+            at = [-99]
         try:
             ind = int(lst.index(o))
         except ValueError:
             ind = -1
-        pos.append(dict(v=v, at=at, isin=bool(o in lst), index=ind, getindex=int(lst.get_index(o, -1))))
+        except Exception:  # pylint: disable=broad-except
+            ind = -99
+        try:
+            isin = bool(o in lst)
+        except Exception:  # pylint: disable=broad-except
+            isin = False
+        try:
+            gi = int(lst.get_index(o, -1))
+        except Exception:  # pylint: disable=broad-except
+            gi = -99
+        pos.append(dict(v=v, at=at, isin=isin, index=ind, getindex=gi))
     windows = []
     if rng is not None:
         for _ in range(2):
@@ -83,6 +99,8 @@ def observe(lst, conv, name, vals, rng=None):
                 ind = int(lst.index(conv(v), start, stop))
             except ValueError:
                 ind = -1
+            except Exception:  # pylint: disable=broad-except
+                ind = -99
             windows.append(dict(v=v, start=start, stop=stop, index=ind))
     if not windows:
         windows = [dict(v=vals[0], start=0, stop=len(content), index=pos[0]['index'])]
